@@ -23,3 +23,14 @@ PROPS["C19"] = {
     "level_note": "Trusted: Coq kernel; the hand-written model of types/denom.go (big.Rat arithmetic, FloatString(9) rounding) and its agreement with the code only as far as the generated strings go; Go's big.Int decimal printing = Coq's Decimal printing. Inputs with signs/exponents/fractions are outside the model.",
     "technique": "Coq proof (stdlib Decimal/N arithmetic) + in-Coq differential check of the model against types.ConvertUndDenomination",
 }
+
+PROPS["C18"] = {
+    "model_targets": ["model/KeysCheck.vo"],
+    "harness": [{"cmd": "keys", "quick": ["-n", 3000], "thorough": ["-n", 120000, "-shard", 400]}],
+    "trusted_base": ["modelled: the key builders/parsers of x/{enterprise,wrkchain,beacon,stream}/types/keys.go as byte lists; that each module owns a separate KV store is a wiring fact read by the translator (store keys in app.go)",
+                     "the prefix-store stripping done by the SDK (prefix.NewStore) is modelled as skipn (length prefix)"],
+    "assumptions": ["ids/heights are uint64; addresses have 1..255 bytes"],
+    "level_text": "Coq theorems over all uint64 ids/heights and all addresses of 1..255 bytes: every key encoder is injective; set/delete at one key never changes the read at another (store model); every iteration prefix selects exactly its own section (incl. per-registration record ranges and the per-receiver stream range); big-endian order = numeric order (ids, (id,height) lexicographic); stream keys parse back to exactly (receiver, sender) on every path the queries use. The byte-level model is compared with the real Go builders/parsers on boundary x random keys inside Coq on every run, and the injectivity/order/round-trip laws are also evaluated directly on the implementation's bytes.",
+    "level_note": "Trusted: Coq kernel; the hand-written byte model and its agreement with keys.go as far as generated keys go; separate stores per module (app wiring). One defect found by the proof (uint8 wrap for 255-byte senders) was repaired by a fix: commit and is kept as a _legacy refutation.",
+    "technique": "Coq proof over list N byte strings + in-Coq differential check of the key builders/parsers",
+}
